@@ -1764,6 +1764,12 @@ func genC17Whole(g *Rng, thorough bool, emit func(Op)) {
 		for _, k := range kinds {
 			l := leaves[k][g.intn(len(leaves[k]))]
 			batch = append(batch, map[string]any{"path": pathAny(l.path), "kind": "nil", "leafkind": k})
+			// and the first and the last leaf of the kind (the ends of the lists the structure checks
+			// loop over: first / last step, first / last base, ...)
+			if n := len(leaves[k]); n > 1 {
+				batch = append(batch, map[string]any{"path": pathAny(leaves[k][0].path), "kind": "nil", "leafkind": k})
+				batch = append(batch, map[string]any{"path": pathAny(leaves[k][n-1].path), "kind": "nil", "leafkind": k})
+			}
 			flush("structural", 120, false)
 		}
 		for _, k := range ckinds {
